@@ -4,6 +4,7 @@ pub mod c02;
 pub mod c03;
 pub mod c04;
 pub mod c05;
+pub mod c06;
 pub mod c07;
 pub mod c08;
 pub mod c09;
@@ -22,6 +23,7 @@ pub fn lookup(id: &str) -> Option<PropertyDef> {
 		"C03" => c03::def(),
 		"C04" => c04::def(),
 		"C05" => c05::def(),
+		"C06" => c06::def(),
 		"C07" => c07::def(),
 		"C08" => c08::def(),
 		"C09" => c09::def(),
@@ -34,4 +36,4 @@ pub fn lookup(id: &str) -> Option<PropertyDef> {
 	})
 }
 
-pub const ALL: &[&str] = &["C01", "C02", "C03", "C04", "C05", "C07", "C08", "C09", "C13", "C14", "C15", "C17", "C20"];
+pub const ALL: &[&str] = &["C01", "C02", "C03", "C04", "C05", "C06", "C07", "C08", "C09", "C13", "C14", "C15", "C17", "C20"];
